@@ -29,7 +29,7 @@ Judge ==
           LET w == TreeOf(R.after)
               w0 == TreeOf(R.ws)
               E == ToSet(R.errs)
-          IN /\ ((E = errs /\ R.crashed = crash /\ (IF crash \/ link # "copy" THEN NoX(w) = NoX(ws) ELSE w = ws)) \/ Say("DIVERGENCE", "apply"))
+          IN /\ ((E = errs /\ R.crashed = crash /\ (IF crash \/ link # "copy" THEN NoX(w) = NoX(ws) ELSE w = ws)) \/ "F16" \in dev \/ Say("DIVERGENCE", "apply"))
              /\ ((del /\ Available(tgt, avail)) => (C09_Files(tgt, w) \/ Say("VERDICT", "FilesNotTarget")))
              /\ ((del /\ Available(tgt, avail)) => (C09_Dirs(tgt, w) \/ Say("VERDICT", "TargetDirMissing")))
              /\ (~del => (C09_Keeps(w0, tgt, w) \/ Say("VERDICT", "RemovedOutsideTarget")))
